@@ -129,8 +129,11 @@ CanDecideStrict == phase = "cont" => (AllDecided \/ CurMax <= r0 + F + 3)
 ContProgress == (phase = "cont" /\ ~AllDecided /\ CurMax < ContRounds) => ENABLED (ContStart \/ ContDeliver \/ ContDecided \/ ContTimeout)
 
 (* ---- C07 (2): fault-free synchronous run: no timeout while a message is deliverable, no Byzantine action ---- *)
-SyncNext == \E i \in Honest :
-               \/ Start(i) \/ RecvProposal(i) \/ RecvPrepare(i) \/ RecvCommit(i) \/ RecvRC(i)
-SyncSpec == Init /\ [][SyncNext]_vars /\ WF_vars(SyncNext)
+SyncNext == /\ \E i \in Honest :
+                  \/ Start(i) \/ RecvProposal(i) \/ RecvRC(i)
+                  \/ (Macro /\ (PrepareQuorumStep(i) \/ CommitQuorumStep(i)))
+                  \/ (~Macro /\ (RecvPrepare(i) \/ RecvCommit(i)))
+            /\ UNCHANGED <<phase, r0>>
+SyncSpec == Init2 /\ [][SyncNext]_allvars /\ WF_allvars(SyncNext)
 FirstRoundDecision == <>(\A i \in Honest : st[i].decided /\ st[i].round = 1 /\ st[i].dval = StartValue[Leader(1)])
 =============================================================================
